@@ -79,9 +79,17 @@ def gen_colvar(r, name, ext_ok=True):
         L.append("  outputVelocity on")
     if r.random() < 0.2:
         L.append("  outputAppliedForce on")
-    if scalar and r.random() < 0.2 and ext_ok:
+    if scalar and r.random() < 0.3 and ext_ok:
         L += ["  extendedLagrangian on", "  extendedFluctuation 0.5", "  extendedTimeConstant 200.0"]
         opts["ext"] = True
+        if r.random() < 0.5:
+            # without Langevin_dynamics (a user feature that requires extended_Lagrangian) nothing references extended_Lagrangian
+            # until a bias takes the total force through it
+            L += ["  extendedLangevinDamping 0.0"]
+        if opts.get("grid") and r.random() < 0.3:
+            L += ["  reflectingLowerBoundary on"]                                  # requires lower_boundary and extended_Lagrangian
+    if opts.get("grid") and r.random() < 0.2:
+        L.append("  hardUpperBoundary on")                                        # user feature requiring the user feature upper_boundary
     if r.random() < 0.15:
         L.append("  timeStepFactor 2")
     if scalar and r.random() < 0.15:
@@ -150,6 +158,8 @@ def gen_bias(r, name, cvs):
             L.append("  outputAccumulatedWork on")
         if r.random() < 0.2 and all(c["scalar"] for c in sel):
             L += ["  writeTIPMF on"] if all(c["opts"].get("grid") for c in sel) and n == 1 else []
+        if r.random() < 0.25 and all(c["scalar"] and c["opts"].get("grid") for c in sel) and len(set(c["name"] for c in sel)) == len(sel):
+            L += ["  writeTISamples on"]      # obtains the total force of its variables (extended Lagrangian, if on, is the alternative taken)
     elif kind == "harmonicWalls":
         L += ["  lowerWalls " + " ".join(["-1.0"] * n), "  upperWalls " + " ".join(["1.0"] * n), "  forceConstant 2.0"]
     elif kind == "linear":
@@ -424,6 +434,24 @@ def gen_depsops(r, st, tabs, n):
     if nobj == 0:
         return ops
     parents = [i for i, ob in enumerate(st["objs"]) if ob["ch"] and ob["fs"]]
+    # aimed at the automatic disable of decr_ref_count: features that are NOT dynamic (user, static), enabled and referenced:
+    # release one reference directly, and disable one of their enabled dependents (a release through the cascade);
+    # only dynamic features may be switched off by reference counting
+    nd = []
+    for oi, ob in enumerate(st["objs"]):
+        tab = tabs.get(ob["cls"], [])
+        if len(tab) != len(ob["fs"]):
+            continue
+        for g, (a, e, rc, alts) in enumerate(ob["fs"]):
+            if e and rc >= 1 and tab[g]["type"] != 1:
+                deps = [f for f, (a2, e2, rc2, alts2) in enumerate(ob["fs"]) if e2 and (g in tab[f]["S"] or g in alts2)]
+                nd.append((oi, g, deps))
+    r.shuffle(nd)
+    for oi, g, deps in nd[:4]:
+        if deps and r.random() < 0.6:
+            ops.append("depsop %d disable %d" % (oi, r.choice(deps)))
+        else:
+            ops.append("depsop %d decr %d" % (oi, g))
     for _ in range(n):
         o = r.randrange(nobj)
         nf = len(st["objs"][o]["fs"])
@@ -583,6 +611,13 @@ W_F7 = ("natoms 2\nnew\nconfig EOF\n" + XZG + HARM % ("h", "") + "EOF\nscriptset
 W_F7_REF = ("natoms 2\nnew\nconfig EOF\n" + XZG + HARM % ("h", "") + "EOF\npos 1 0 0 1.0\nstep\npos 1 0 0 2.0\nstep\necho END\n")
 
 
+# U: a user feature (extendedLagrangian on) that a bias referenced (total force through the extended coordinate) must survive the
+# deletion of that bias: only dynamic features are switched off by reference counting
+XE = XZG.replace("  distanceZ {", "  extendedLagrangian on\n  extendedFluctuation 0.5\n  extendedTimeConstant 200.0\n  extendedLangevinDamping 0.0\n  distanceZ {")
+W_U = ("natoms 2\ntemperature 300.0\nnew\nconfig EOF\n" + XE + HARM % ("h", "  writeTISamples on\n") + HARM % ("k", "") + "EOF\n"
+       "pos 1 0 0 1.0\nstep\ndumpdeps\nscript cv bias h delete\ndumpdeps\npos 1 0 0 1.5\nstep\necho END\n")
+
+
 def run_scn(unit, d, text, name="w.scn"):
     p = os.path.join(d, name)
     open(p, "w").write(text)
@@ -641,6 +676,20 @@ def replay_witnesses(run, unit, d, tabs, model):
         if "err=ok" not in (A or [""])[0] or not obs_equal(A, B):
             run.violation(F7 + ":observables", "switching scaledBiasingForce on by script (no map) changes the step results: %s instead of %s" % (A, B),
                           {"kind": "identity", "scenario": W_F7, "reference": W_F7_REF})
+    # U: user feature referenced by a bias survives the deletion of the bias
+    rc, o, e = run_scn(unit, d, W_U)
+    dumps = D.parse_deps_blocks(o.split("\n"))
+    run.count("witness:U", True)
+    if "echo END" not in o or len(dumps) != 2:
+        run.violation("witness:U:crash", "the witness of user-feature persistence does not run (rc=%d): %s" % (rc, (o[-200:] + e[-200:])), {"kind": "scenario", "scenario": W_U})
+    else:
+        ids = [i for i, ft in enumerate(tabs[1]) if ft["D"] == "extended_Lagrangian"]
+        before = dumps[0]["objs"][0]["fs"][ids[0]] if ids else None
+        u = D.monitor_user(tabs, dumps[0], dumps[1])
+        run.dist("witness:U:ext-referenced-once" if before and before[1] and before[2] == 1 else "witness:U:ext-reference-count-not-1")
+        if u:
+            run.violation("user-feature-switched-by-reference-counting", "variable x (extendedLagrangian on) with harmonic h (writeTISamples on: total force "
+                          "through the extended coordinate) and harmonic k; `cv bias h delete`: %s" % u[0][1], {"kind": "scenario", "scenario": W_U})
     # F3: script "set <feature> off" of a feature with exactly one dependent
     rc, o, e = run_scn(unit, d, W_F3)
     dumps = D.parse_deps_blocks(o.split("\n"))
@@ -787,6 +836,8 @@ def check(run):
                 mlines.append("MOP %d %d check %s" % (lag, FUEL, D.encode_mstate(cur, NATOMS)))
                 mexpect.append(("chk", "%d %d" % (0 if any(c != "A1" for c, _ in lk) else 1, 0 if any(c == "A1" for c, _ in lk) else 1), cur, part, None, None))
             bad = D.monitor(tabs, cur) + D.monitor_links(cur) + D.monitor_engine(tabs, cur)
+            if ev["op"] in ("delbias", "delcv", "step"):
+                bad += D.monitor_user(tabs, prev, cur)
             need = D.need_counts(tabs, cur)
             leak = sum(1 for oi, ob in enumerate(cur["objs"]) for g, f in enumerate(ob["fs"]) if f[2] > need[oi][g])
             run.dist("dump:ref_count-above-accounted-need" if leak else "dump:ref_count-equals-accounted-need")
